@@ -25,6 +25,7 @@
 #include <sstream>
 #include <string>
 #include <vector>
+#include <sys/time.h>
 #include "common.h"
 
 using namespace Gudhi::skeleton_blocker;
@@ -121,15 +122,15 @@ int main() {
   // silence the library's chatter on cerr/clog
   std::cerr.setstate(std::ios::failbit);
   std::clog.setstate(std::ios::failbit);
-  // watchdog: a history that does not finish within 6 s of wall time is reported as a crash
-  signal(SIGALRM, vh::on_crash);
+  // watchdog: a history that burns more than 6 s of CPU time (not wall time: the machine may be loaded) is reported as a crash
+  signal(SIGVTALRM, vh::on_crash);
   bool skipping = true;   // after a restart in the middle of a history: answer SKIP until the next history starts
   while (std::getline(std::cin, line)) {
     std::istringstream in(line);
     std::string op;
     in >> op;
     if (op.empty()) { vh::emit("ok"); continue; }
-    if (op == "H") { c.reset(new Complex()); skipping = false; alarm(6); vh::emit("ok"); continue; }
+    if (op == "H") { c.reset(new Complex()); skipping = false; { struct itimerval it = {{0, 0}, {6, 0}}; setitimer(ITIMER_VIRTUAL, &it, nullptr); } vh::emit("ok"); continue; }
     if (skipping) { vh::emit("SKIP"); continue; }
     std::vector<int> a;
     std::string ans;
